@@ -4,8 +4,10 @@ from check import Prop
 class C21(Prop):
     pid = "C21"
     check_mod = "C21"
-    drivers = [dict(pkg="internal/externalcmd", test="TestVerifC21", timeout=600)]
-    n_quick = 360          # commands with argv/environ dump; +256 exit statuses +24 with Restart +2 killed by signal
+    drivers = [dict(pkg="internal/externalcmd", test="TestVerifC21", timeout=600),
+               # callers of the launcher: a real core.path, hook events in sequence, commands held back
+               dict(pkg="internal/core", test="TestVerifC21Env", timeout=600)]
+    n_quick = 360          # (+30 hook-event rounds on a real core.path, 2-12 events each) commands with argv/environ dump; +256 exit statuses +24 with Restart +2 killed by signal
     n_thorough = 12000
     search_factor = 3
     shard = 200
